@@ -183,6 +183,9 @@ func checkType(t PType, v Val) bool {
 		f, ok := v.(FnV)
 		return ok && f.fnArity() == 1
 	case TCallable:
+		if _, ok := v.(*QueryV); ok {
+			return true // api.convertQueryToCallable: a query is usable as the 1-argument function `matches q`
+		}
 		_, ok := v.(FnV)
 		return ok
 	case TString:
@@ -259,6 +262,21 @@ func (it *Interp) Apply(f FnV, args []Val) (Val, error) {
 		return it.Apply(fn.G, []Val{y})
 	}
 	return nil, &RefError{Cat: "type", Msg: "not a function"}
+}
+
+// matchesQuery models the native function api.convertQueryToCallable builds
+// from a query: one argument, which must be a feature (the harness has none).
+var matchesQuery = &Global{Name: "matches-query", Kinds: []Kind{KAny}, Types: []PType{TAny}, Result: KAny,
+	Ref: func(it *Interp, a []Val) (Val, error) {
+		return nil, &RefError{Cat: "type", Msg: "expected a feature, found " + Show(a[0])}
+	}}
+
+// AsFn converts a value accepted by a TCallable parameter to a function.
+func AsFn(v Val) FnV {
+	if _, ok := v.(*QueryV); ok {
+		return &GlobalFn{G: matchesQuery}
+	}
+	return v.(FnV)
 }
 
 // need returns the minimum number of arguments that invokes f (fewer make a
